@@ -110,3 +110,11 @@ CLAIMED['C10'] = (
     'start voxel fixed by translation symmetry; grids bounded by the number of simple paths; z3.',
     'DESIGN.md §3 C10')
 NOT_APPLICABLE.pop('C10', None)
+CLAIMED['C11'] = (
+    'symbolic execution of radial_distribution_between_species and radial_distribution on symbolic coordinates/states; minimum-image distances by the pymatgen contract; z3 (NRA) per-path obligations',
+    'For every position of the symbolic atom in the cell (and every state history) within the bound: each histogram bin times its ideal-gas shell count equals the number of pairs in the shell, '
+    'raw counts symmetric in the species; per-state entries equal the number of frames in that state and distance bin and every pair within the cut-off is counted exactly once.',
+    'Lattice.get_all_distances by its contract (27-image metric-tensor minimum after reduction; lemma per pool lattice); positions in [0,1) (wrap cut); np.arange edges exact rationals; '
+    'placeholder structure for species lookup; few atoms/frames; z3.',
+    'DESIGN.md §3 C11')
+NOT_APPLICABLE.pop('C11', None)
